@@ -80,7 +80,7 @@ def run(job):
     tmp = tempfile.mkdtemp(prefix="vf-c06-")
     try:
         for h in range(job["n"]):
-            cfg = {"version": VERSIONS[h % 5], "flavour": ["sync", "async"][(h // 5) % 2], "ext": ["json", "pickle"][(h // 10) % 2]}
+            cfg = {"version": VERSIONS[h % 5], "flavour": ["sync", "async"][(h // 5) % 2], "ext": ["json", "pickle"][(h // 10) % 2], "callback": h % 3 != 2}
             steps = history(rng, cfg["version"], directed=rng.random() < 0.5)
             out = run_one(cfg, steps, tmp)
             res.evals += 1
